@@ -4,6 +4,7 @@ From Coq Require Import List ZArith QArith Qabs Bool Arith String.
 Import ListNotations.
 Require Import DTS.Base.RangeZ DTS.Base.Dyadic DTS.Gen.GenLayout DTS.Model.Layout DTS.Proofs.LayoutP DTS.Corr.TempC DTS.Proofs.TempP.
 Require Import Coq.QArith.Qminmax.
+Require DTS.Gen.GenMasks DTS.Proofs.MasksP.
 Local Open Scope Z_scope.
 
 (* T16: for every (nt, nx, nta) the index properties of ParameterIndexDoubleEnded, in the order of `all`
@@ -79,7 +80,16 @@ Proof. vm_compute. discriminate. Qed.
 Example C04_ex_layout : layout_de 3 5 2 (TAB 1 2) = Some 23 /\ layout_se 3 5 2 false (TA 1 2) = Some 10.
 Proof. vm_compute. auto. Qed.
 
+(* T19b: the splice convention (forward loss at x >= ta, backward loss at x < ta: a splice exactly on a sampling location belongs to the
+   downstream side) is applied with the same comparison operator at every one of the ~30 sites of the source that compare a location
+   with a splice position, and every function that has to apply it does.  Gen/GenMasks.v is REGENERATED from the source on every run. *)
+Theorem C04_splice_convention_is_uniform :
+  forallb DTS.Proofs.MasksP.follows DTS.Gen.GenMasks.splice_comparisons = true /\
+  forallb DTS.Proofs.MasksP.present DTS.Proofs.MasksP.required = true.
+Proof. split; [exact DTS.Proofs.MasksP.all_sites_follow_the_convention|exact DTS.Proofs.MasksP.every_required_site_is_present]. Qed.
+
 Print Assumptions C04_layout_double. Print Assumptions C04_layout_double_ta. Print Assumptions C04_layout_single.
 Print Assumptions C04_named_layout_double. Print Assumptions C04_named_layout_double_injective.
 Print Assumptions C04_named_layout_single. Print Assumptions C04_named_layout_single_injective.
 Print Assumptions C04_splice_loss_full. Print Assumptions C04_temperature_check_sound.
+Print Assumptions C04_splice_convention_is_uniform.
